@@ -17,7 +17,7 @@ use std::path::{Path, PathBuf};
 pub static SPEC: PropSpec = PropSpec {
     id: "C14",
     level: "exploration",
-    rule: "projects: the 8 corpus projects; three projects with a package that contains no function (types only, generic types only, a trait only - used statically and through dyn); 72 transitive-visibility projects (Main reaches an item of a package that only a dependency of its dependencies imports - impl, field, inherent path, annotation, dot call, enum pattern, static function, value passed through - over 7 assignments of names to the chain, with import controls); generated projects with 1-5 library packages (dependency DAGs with diamonds, cross-package structs in signatures, generic functions and enums, traits with impls for local and primitive types, impls of a foreign trait for a local type, 1-3 source files per package); and textual mutations of them (one import dropped from one file of a multi-file package, all imports of a package dropped, a call redirected to a function that does not exist, a return type changed, an impl removed, a definition duplicated in a second file, a package declaration changed) that usually make the project invalid. each is compiled whole and separately under every topological order of its package graph (at most 8): acceptance parity, equal behaviour of the two Go programs (stdout / termination, and the model's expected stdout for unmutated generated projects), check interface == build interface for every package. non-trivial: projects accepted both ways and executed; distinct by source hash",
+    rule: "projects: the 8 corpus projects; three projects in which a package imports itself (driven through the separate path in the order a user would give); three projects with a package that contains no function (types only, generic types only, a trait only - used statically and through dyn); 72 transitive-visibility projects (Main reaches an item of a package that only a dependency of its dependencies imports - impl, field, inherent path, annotation, dot call, enum pattern, static function, value passed through - over 7 assignments of names to the chain, with import controls); generated projects with 1-5 library packages (dependency DAGs with diamonds, cross-package structs in signatures, generic functions and enums, traits with impls for local and primitive types, impls of a foreign trait for a local type, 1-3 source files per package); and textual mutations of them (one import dropped from one file of a multi-file package, all imports of a package dropped, a call redirected to a function that does not exist, a return type changed, an impl removed, a definition duplicated in a second file, a package declaration changed) that usually make the project invalid. each is compiled whole and separately under every topological order of its package graph (at most 8): acceptance parity, equal behaviour of the two Go programs (stdout / termination, and the model's expected stdout for unmutated generated projects), check interface == build interface for every package. non-trivial: projects accepted both ways and executed; distinct by source hash",
     eval_counter: "project_observations",
     assumptions: &["behaviour is compared through gomini; artifacts are written and re-read through the same serde_json path the CLI uses"],
     crash_is_violation: false,
